@@ -90,6 +90,7 @@ pub fn classify(src: &str, r: &RunResult, c: &mut Case) {
         c.impl_violation = Some(format!("stage {} {}: {}", stage, if kind == "hang" { "does not terminate within the time limit" } else { "kills the process" }, detail));
         outcome.push(format!("{}={}", stage, how));
     }
+    if r.wall_ms >= 200 && r.fatal.is_none() { c.tags.push("slow:>=200ms".into()); }
     c.imp = format!("({})", outcome.join(" "));
     c.oracle = format!("total {}", c.imp);
     c.nontrivial = r.stages.len() >= 5 || r.fatal.is_some() || r.stages.iter().any(|s| s.outcome.starts_with("err:"));
@@ -334,6 +335,12 @@ pub fn generate(seed: u64, n: usize, thorough: bool, corpus: Option<&str>) -> Ve
         ("neg-2pow63", format!("min 1\ns.t.\n    x >= a\nwhere\n    let A = [{}]\n    let a = -(len(A) * len(A) * len(A) * len(A) * len(A) * len(A) * len(A))\ndefine\n    x as Real\n", vec!["1"; 512].join(","))),
     ] {
         cases.push(run(src, vec!["stream:fixed-shapes".into(), format!("shape:{}", tag)], &mut pool));
+    }
+    // ---- ranges whose ends are numeric extremes (inclusive AND exclusive; sum / for / define), exhaustively
+    for (tag, src) in range_extreme_programs() { cases.push(run(src, vec!["stream:range-extremes".into(), tag], &mut pool)); }
+    // ---- tuple destructuring against every kind of element, incl. more names than components and jagged rows
+    for d in destructure_programs(false) {
+        cases.push(run(d.src, vec!["stream:destructuring".into(), format!("destructure:{}:{}{}:{}", d.source, if d.tuple { "tuple" } else { "single" }, d.vars.len(), d.position)], &mut pool));
     }
     let restarts = pool.restarts;
     drop(pool);
